@@ -1,8 +1,14 @@
 (* C20 property theorems: statements only, each closed by [exact].
    w = int(1/threshold) >= 1 is the bucket width; ks is the whole stream of additions
    (update with an iterable, a mapping or kwargs expands to additions: op_keys). *)
-From Boltons Require Import Lib.Prelude Model.C20_Model Spec.C20_Spec Proofs.C20_Proofs.
+From Boltons Require Import Lib.Prelude Lib.PySrc Model.C20_Model Spec.C20_Spec Proofs.C20_Proofs Gen.C20_Src Proofs.C20_SrcEq.
 Open Scope N_scope.
+
+(* (T) tie: the Gallina text regenerated on this run from the current source of
+   ThresholdCounter.add (Gen/C20_Src.v) is the model step all theorems below are about *)
+Theorem C20_source_add : forall s k, src_add s k = tc_add s k.
+Proof. exact src_add_is_model. Qed.
+Print Assumptions C20_source_add.
 
 (* total equals the number of additions *)
 Theorem C20_total : forall w ks, tc_total (tc_adds (tc_init w) ks) = N.of_nat (length ks).
